@@ -11,6 +11,10 @@ use common::{Args, Report};
 fn main() {
     let argv: Vec<String> = std::env::args().skip(1).collect();
     let args = Args::parse(&argv);
+    // anyhow captures a backtrace per error when RUST_BACKTRACE is set: slow and irrelevant here
+    if std::env::var_os("RUST_LIB_BACKTRACE").is_none() {
+        std::env::set_var("RUST_LIB_BACKTRACE", "0");
+    }
     common::install_panic_hook();
     sim::logsub::install();
     let mut report = Report::new(&args.prop);
